@@ -1,7 +1,7 @@
 (* C19 — property theorems only. Each is closed by [exact]/[apply] of lemmas of Proofs*.v, or, for the
    refutations and examples, by evaluation of the executable model on a concrete witness. *)
 From Coq Require Import List ZArith Bool.
-From Gst Require Import C19.Model C19.Calcs C19.Spec C19.Proofs C19.ProofsSuccess C19.ProofsLoc C19.ProofsInst C19.Witness.
+From Gst Require Import C19.Model C19.Calcs C19.Spec C19.Proofs C19.ProofsSuccess C19.ProofsLoc C19.ProofsAlias C19.ProofsRestore C19.ProofsInst C19.Witness.
 Import ListNotations.
 Local Open Scope Z_scope.
 
@@ -101,7 +101,7 @@ Print Assumptions C19_CalcGlobal_atomic.
    cleaned by _rollback since fix C19_3).  Atomic -- and the Dbs well-formed again -- provided no variable carried
    the SIMU locator before the call (otherwise: known findings *:existing-simu-locator-lost below).  Not DGM. *)
 Theorem C19_CalcSimuTurningBands_atomic : forall (c : cfg) gout din dout fs fk s',
-  Inv din -> Inv dout -> g_dgm c = false -> (g_has_in c = false \/ g_rb2 c = true) ->
+  Inv din -> Inv dout -> ver_bit c 2 = false -> g_dgm c = false -> (g_has_in c = false \/ g_rb2 c = true) ->
   getloc (d_locs din) L_SIMU = [] -> getloc (d_locs dout) L_SIMU = [] ->
   expand_noop L_F din dout = true -> expand_noop L_NOSTAT din dout = true -> fs <> 4 ->
   calc_run (simtub c gout) (init_st din dout false) fs fk = (false, s') ->
@@ -110,12 +110,119 @@ Proof. exact simtub_atomic. Qed.
 Print Assumptions C19_CalcSimuTurningBands_atomic.
 
 Theorem C19_CalcSimuFFT_atomic : forall (c : cfg) gout din dout fs fk s',
-  Inv din -> Inv dout -> getloc (d_locs din) L_SIMU = [] -> getloc (d_locs dout) L_SIMU = [] ->
+  Inv din -> Inv dout -> ver_bit c 2 = false -> getloc (d_locs din) L_SIMU = [] -> getloc (d_locs dout) L_SIMU = [] ->
   expand_noop L_F din dout = true -> expand_noop L_NOSTAT din dout = true -> fs <> 4 ->
   calc_run (simfft c gout) (init_st din dout false) fs fk = (false, s') ->
   (db_eq (s_in s') din /\ Inv (s_in s')) /\ (db_eq (s_out s') dout /\ Inv (s_out s')).
 Proof. exact simfft_atomic. Qed.
 Print Assumptions C19_CalcSimuFFT_atomic.
+
+(* DGM option: _preprocess saves the names of the coordinate variables of dbin and moves the X locators to centred
+   temporary copies; _postprocess and (fixes C19_1 / C19_3) _rollback clean the temporary list and give the locators
+   back by name.  Atomic -- and well-formed again -- when dbin is a set of points whose coordinate variables exist, are
+   distinct and carry no other locator. *)
+Theorem C19_CalcKriging_dgm_atomic : forall (c : cfg) gout din dout fs fk s',
+  Inv din -> Inv dout -> g_dgm c = true -> g_rb2 c = true ->
+  expand_noop L_F din dout = true -> expand_noop L_NOSTAT din dout = true ->
+  d_grid din = false -> NoDup (getloc (d_locs din) L_X) ->
+  (forall u, In u (getloc (d_locs din) L_X) -> has_col din u = true) ->
+  (forall u t, In u (getloc (d_locs din) L_X) -> t <> L_X -> ~ In u (getloc (d_locs din) t)) ->
+  fs <> 4 ->
+  calc_run (kriging c gout) (init_st din dout false) fs fk = (false, s') ->
+  (db_eq (s_in s') din /\ Inv (s_in s')) /\ (db_eq (s_out s') dout /\ Inv (s_out s')).
+Proof. exact kriging_dgm_atomic. Qed.
+Print Assumptions C19_CalcKriging_dgm_atomic.
+
+Theorem C19_CalcSimuTurningBands_dgm_atomic : forall (c : cfg) gout din dout fs fk s',
+  Inv din -> Inv dout -> ver_bit c 2 = false -> g_dgm c = true -> g_rb2 c = true ->
+  getloc (d_locs din) L_SIMU = [] -> getloc (d_locs dout) L_SIMU = [] ->
+  expand_noop L_F din dout = true -> expand_noop L_NOSTAT din dout = true ->
+  d_grid din = false -> NoDup (getloc (d_locs din) L_X) ->
+  (forall u, In u (getloc (d_locs din) L_X) -> has_col din u = true) ->
+  (forall u t, In u (getloc (d_locs din) L_X) -> t <> L_X -> ~ In u (getloc (d_locs din) t)) ->
+  fs <> 4 ->
+  calc_run (simtub c gout) (init_st din dout false) fs fk = (false, s') ->
+  (db_eq (s_in s') din /\ Inv (s_in s')) /\ (db_eq (s_out s') dout /\ Inv (s_out s')).
+Proof. exact simtub_dgm_atomic. Qed.
+Print Assumptions C19_CalcSimuTurningBands_dgm_atomic.
+
+(* CalcSimuPost (statistics of simulations, upscaled to dbout) *)
+Theorem C19_CalcSimuPost_atomic : forall (c : cfg) gout quals din dout fs fk s',
+  Inv din -> Inv dout -> fs <> 4 ->
+  calc_run (simupost c gout quals) (init_st din dout false) fs fk = (false, s') -> db_eq (s_in s') din /\ db_eq (s_out s') dout.
+Proof. intros c gout quals din dout fs fk s' Hi Ho. apply atomic_generic; try assumption. apply wf_simupost. Qed.
+Print Assumptions C19_CalcSimuPost_atomic.
+
+(* CalcSimuPartition (Voronoi) and CalcSimuSubstitution: one variable created with the SIMU locator *)
+Theorem C19_CalcSimuPartition_atomic : forall (c : cfg) gout din dout fs fk s',
+  Inv din -> Inv dout -> ver_bit c 2 = false -> g_mode c <> 1 -> getloc (d_locs din) L_SIMU = [] -> getloc (d_locs dout) L_SIMU = [] ->
+  expand_noop L_F din dout = true -> expand_noop L_NOSTAT din dout = true -> fs <> 4 ->
+  calc_run (simu1 c gout) (init_st din dout false) fs fk = (false, s') ->
+  (db_eq (s_in s') din /\ Inv (s_in s')) /\ (db_eq (s_out s') dout /\ Inv (s_out s')).
+Proof. exact simu1_atomic. Qed.
+Print Assumptions C19_CalcSimuPartition_atomic.
+
+(* ---------------------------------------------------------------------------------------------
+   The same Db given as input and output (xvalid, CalcAnamTransform, CalcImage, in-place regression and simulation
+   statistics): the four lists of the calculator designate variables of this one Db. *)
+Theorem C19_atomic_same_db : forall (c : calc) (d dout : db) (fs : Z) (fk : nat) (s' : st),
+  Inv d -> wf_atomic c d d = true -> fs <> 4 ->
+  calc_run c (init_st d dout true) fs fk = (false, s') ->
+  db_eq (s_in s') d /\ Inv (s_in s').
+Proof. exact atomic_alias. Qed.
+Print Assumptions C19_atomic_same_db.
+
+Theorem C19_success_same_db : forall (c : calc) (d dout : db) (fk : nat) (s' : st),
+  Inv d -> wf_success c d d = true ->
+  calc_run c (init_st d dout true) 0 fk = (true, s') ->
+  success_spec1 (k_nc c) d s'.
+Proof. exact success_alias. Qed.
+Print Assumptions C19_success_same_db.
+
+(* xvalid *)
+Theorem C19_xvalid_atomic : forall (c : cfg) gout d dout fs fk s',
+  Inv d -> g_dgm c = false -> (g_single c < 0 \/ g_rb2 c = true) -> fs <> 4 ->
+  calc_run (kriging c gout) (init_st d dout true) fs fk = (false, s') -> db_eq (s_in s') d /\ Inv (s_in s').
+Proof.
+  intros c gout d dout fs fk s' Hi Hd Hs. apply atomic_alias; try assumption.
+  apply wf_kriging; try assumption; apply expand_noop_self; discriminate.
+Qed.
+Print Assumptions C19_xvalid_atomic.
+
+Theorem C19_xvalid_success : forall (c : cfg) gout d dout fk s',
+  Inv d -> g_dgm c = false ->
+  calc_run (kriging c gout) (init_st d dout true) 0 fk = (true, s') -> success_spec1 (g_nc c) d s'.
+Proof.
+  intros c gout d dout fk s' Hi Hd. apply (success_alias (kriging c gout)); try assumption.
+  apply wf_success_kriging; try assumption; apply expand_noop_self; discriminate.
+Qed.
+Print Assumptions C19_xvalid_success.
+
+Theorem C19_CalcAnamTransform_same_db_atomic : forall (c : cfg) d dout fs fk s',
+  Inv d -> fs <> 4 ->
+  calc_run (anam c) (init_st d dout true) fs fk = (false, s') -> db_eq (s_in s') d /\ Inv (s_in s').
+Proof. intros c d dout fs fk s' Hi. apply atomic_alias; try assumption. apply wf_anam. Qed.
+Print Assumptions C19_CalcAnamTransform_same_db_atomic.
+
+Theorem C19_CalcAnamTransform_same_db_success : forall (c : cfg) d dout fk s',
+  Inv d -> calc_run (anam c) (init_st d dout true) 0 fk = (true, s') -> success_spec1 (g_nc c) d s'.
+Proof. intros c d dout fk s' Hi. apply (success_alias (anam c)); try assumption. apply wf_success_anam. Qed.
+Print Assumptions C19_CalcAnamTransform_same_db_success.
+
+Theorem C19_CalcImage_same_db_atomic : forall (c : cfg) opkey d dout fs fk s',
+  Inv d -> fs <> 4 ->
+  calc_run (image c opkey) (init_st d dout true) fs fk = (false, s') -> db_eq (s_in s') d /\ Inv (s_in s').
+Proof.
+  intros c opkey d dout fs fk s' Hi. apply atomic_alias; try assumption.
+  apply wf_image; apply expand_noop_self; discriminate.
+Qed.
+Print Assumptions C19_CalcImage_same_db_atomic.
+
+Theorem C19_CalcSimuPost_same_db_atomic : forall (c : cfg) gout quals d dout fs fk s',
+  Inv d -> fs <> 4 ->
+  calc_run (simupost c gout quals) (init_st d dout true) fs fk = (false, s') -> db_eq (s_in s') d /\ Inv (s_in s').
+Proof. intros c gout quals d dout fs fk s' Hi. apply atomic_alias; try assumption. apply wf_simupost. Qed.
+Print Assumptions C19_CalcSimuPost_same_db_atomic.
 
 (* ---------------------------------------------------------------------------------------------
    Generic success.  For ANY calculator description satisfying [wf_success] (registered additions without locator,
@@ -209,6 +316,42 @@ Proof.
 Qed.
 Print Assumptions C19_CalcSimuFFT_existing_simu_refuted.
 
+(* CalcKrigingFactors (pinned tree, g_ver bit 0 clear): _check leaves the Z locator to the first factor only and
+   _rollback does not give it back (seeded observation, reproduced); with a change of support the centred copies and
+   the X locators stay as well.  With fixes/C19_6.patch (bit 0 + g_rb2) the witnesses are restored: see the example below *)
+Theorem C19_CalcKrigingFactors_refuted : exists din dout fs fk s',
+  Inv din /\ Inv dout /\ calc_run (krigfac (cfg_krigfac false false 0) true) (init_st din dout false) fs fk = (false, s') /\
+  d_cols (s_in s') = d_cols din /\ getloc (d_locs (s_in s')) L_Z <> getloc (d_locs din) L_Z.
+Proof.
+  exists w_din_fac, w_dout, 1, 0%nat. eexists.
+  split; [apply invb_sound; vm_compute; reflexivity|]. split; [apply invb_sound; vm_compute; reflexivity|].
+  split; [vm_compute; reflexivity|]. split; [vm_compute; reflexivity | vm_compute; discriminate].
+Qed.
+Print Assumptions C19_CalcKrigingFactors_refuted.
+
+(* tessellation_poisson: the nested simulation is left in the grid when no Poisson plane is drawn (and, the last column
+   RANK being used as a UID, the wrong variable is deleted as soon as the grid has a uid hole) *)
+Theorem C19_CalcSimuPartition_poisson_refuted : exists din dout fs fk s',
+  Inv din /\ Inv dout /\ calc_run (simu1 cfg_poisson true) (init_st din dout false) fs fk = (false, s') /\
+  ~ db_eq (s_out s') dout.
+Proof.
+  exists w_din, w_dout, 3, 3%nat. eexists.
+  split; [apply invb_sound; vm_compute; reflexivity|]. split; [apply invb_sound; vm_compute; reflexivity|].
+  split; [vm_compute; reflexivity | intros [H _]; vm_compute in H; discriminate].
+Qed.
+Print Assumptions C19_CalcSimuPartition_poisson_refuted.
+
+(* fluid_propagation works IN its input facies / fluid variables: pre-existing values are overwritten, on success too *)
+Theorem C19_CalcSimuEden_refuted : exists din dout s',
+  Inv din /\ Inv dout /\ calc_run (eden cfg_eden true) (init_st din dout false) 0 0%nat = (true, s') /\
+  firstn 4 (d_cols (s_out s')) <> d_cols dout.
+Proof.
+  exists w_din, w_dout. eexists.
+  split; [apply invb_sound; vm_compute; reflexivity|]. split; [apply invb_sound; vm_compute; reflexivity|].
+  split; [vm_compute; reflexivity | vm_compute; discriminate].
+Qed.
+Print Assumptions C19_CalcSimuEden_refuted.
+
 (* Remark (not a finding: nothing can fail once the last stage has returned true): if a failure is forced AFTER a
    completed _postprocess, the locators cleared by NamingConvention::setLocators are not given back *)
 Example C19_remark_failure_after_postprocess :
@@ -218,8 +361,8 @@ Example C19_remark_failure_after_postprocess :
 Proof. vm_compute. reflexivity. Qed.
 
 (* --------------------------------------------------------------------------------------------- regression examples
-   The DGM option (coordinate locators moved to centred temporary copies by _preprocess, given back by _postprocess
-   and, since fixes C19_1/C19_3, by _rollback) has NO general theorem here; together with the former witnesses of the defects cured by fixes C19_1..5:
+   CalcKrigingFactors with the roll-back of fixes/C19_6.patch has no general theorem here (sweep below); together with
+   the DGM witnesses (general theorems above) and the former witnesses of the defects cured by fixes C19_1..5:
    on the witnesses, a failure at every point of check / preprocess (after each operation) / run is reported and
    leaves both Dbs equal to the initial ones. *)
 Example C19_atomic_on_former_witnesses :
@@ -229,7 +372,27 @@ Example C19_atomic_on_former_witnesses :
   sweep_atomic (simtub cfg_simtub_dgm true) w_din w_dout = true /\
   sweep_atomic (kriging cfg_krigtest true) w_din w_dout = true /\
   sweep_atomic (anam cfg_anam) w_din w_dout = true /\
-  sweep_atomic (g2g cfg_shrink) w_dout w_dout = true.
+  sweep_atomic (g2g cfg_shrink) w_dout w_dout = true /\
+  sweep_atomic (krigfac (cfg_krigfac false true 1) true) w_din_fac w_dout = true /\
+  sweep_atomic (krigfac (cfg_krigfac true true 1) true) w_din_fac w_dout = true /\
+  sweep_atomic1 (kriging cfg_xvalid false) w_din = true.
+Proof. vm_compute. repeat split; reflexivity. Qed.
+
+(* --------------------------------------------------------------------------------------------- proposed fixes C19_6 .. C19_9
+   With the code-version flags of the proposed patches (g_rb2, g_ver: read in the source by checks/C19.py, so that the
+   model follows /repo whether or not they are applied) the witnesses of the remaining findings are restored / left
+   untouched.  General theorems for these variants are not proved (CalcKrigingFactors: see the sweep above). *)
+Example C19_proposed_fixes_on_witnesses :
+  (* C19_7: the expanded external drift is a temporary variable of dbin *)
+  sweep_atomic (kriging (with_ver cfg_extdrift true 2) true) w_din w_dout_f = true /\
+  success_keeps_dbin (kriging (with_ver cfg_extdrift true 2) true) w_din w_dout_f = true /\
+  (* C19_8: pre-existing SIMU locators put aside and given back *)
+  sweep_atomic (simtub (with_ver cfg_simtub true 6) true) w_din w_dout_simu = true /\
+  sweep_atomic (simfft (with_ver cfg_simfft true 6) true) w_din w_dout_simu = true /\
+  (* C19_9: tessellation_poisson *)
+  stage_atomic (simu1 (with_ver cfg_poisson true 14) true) w_din w_dout = true /\
+  stage_atomic (simu1 (with_ver cfg_poisson true 14) true) w_din w_dout_simu = true /\
+  stage_atomic (simu1 (with_ver cfg_poisson true 0) true) w_din w_dout = false.
 Proof. vm_compute. repeat split; reflexivity. Qed.
 
 (* a completed krigtest leaves dbout exactly as it was (no output variable, no dangling locator);
